@@ -868,6 +868,12 @@ int iauth_xreply_ok(struct iauth_request *request, const char *service)
         srv = iauth_xquery_services.vec[ii];
         if (!srv || strcasecmp(service, srv->name))
             continue;
+        /* A retired entry is only still here because somebody (not
+         * necessarily this client) waits for its answer; what it said
+         * must not depend on that.
+         */
+        if (!srv->configured)
+            continue;
         if ((cli->ok_mask & (1u << ii)) != 0)
             return 1;
         if ((cli->ref_mask & (1u << ii)) != 0)
